@@ -300,7 +300,7 @@ func (lf *lexFolder) run(fr *lexFrame, pos int, reads int, emitted string, lastW
 				if fr.prev != nil {
 					for pi, p := range blk.Preds {
 						if p == fr.prev {
-							if v, ok := f.eval(in.Edges[pi]); ok {
+							if v, ok := lf.evalE(f, in.Edges[pi]); ok {
 								fr.env[in] = v
 							}
 						}
@@ -340,13 +340,11 @@ func (lf *lexFolder) run(fr *lexFrame, pos int, reads int, emitted string, lastW
 					errSlot := errIndex(fr.fn.Signature)
 					res := retResults(in)
 					switch {
-					case errSlot >= 0 && isNilConst(res[errSlot]):
+					case errSlot < 0:
 						lf.record(lexOutcome{kind: "finish", consumed: pos})
-					case errSlot >= 0 && neverNilError(c, res[errSlot]):
-						lf.record(lexOutcome{kind: "error", consumed: pos})
 					default:
 						// an error value handed up from a scanner: decided where it was produced
-						if v, ok := f.eval(res[errSlot]); ok && v.kind == 'e' {
+						if v, ok := lf.evalE(f, res[errSlot]); ok && v.kind == 'e' {
 							if v.b {
 								lf.record(lexOutcome{kind: "error", consumed: pos})
 							} else {
@@ -366,18 +364,11 @@ func (lf *lexFolder) run(fr *lexFrame, pos int, reads int, emitted string, lastW
 				for _, rv := range retResults(in) {
 					if isErrorType(rv.Type()) {
 						// errors: nil / non-nil is what matters
-						switch {
-						case isNilConst(rv):
-							vals = append(vals, fval{kind: 'e', b: false})
-						case neverNilError(c, rv):
-							vals = append(vals, fval{kind: 'e', b: true})
-						default:
-							if v, ok := f.eval(rv); ok && v.kind == 'e' {
-								vals = append(vals, v)
-							} else {
-								vals = append(vals, fval{})
-								known = false
-							}
+						if v, ok := lf.evalE(f, rv); ok && v.kind == 'e' {
+							vals = append(vals, v)
+						} else {
+							vals = append(vals, fval{})
+							known = false
 						}
 						continue
 					}
@@ -1021,4 +1012,21 @@ func ruleScanLoops(c *Ctx) *RuleResult {
 func isBuiltinNamed(call *ssa.Call, name string) bool {
 	b, ok := call.Call.Value.(*ssa.Builtin)
 	return ok && b.Name() == name
+}
+
+// evalE: eval, with error-typed values reduced to nil / non-nil.
+func (lf *lexFolder) evalE(f *folder, v ssa.Value) (fval, bool) {
+	if isErrorType(v.Type()) {
+		switch {
+		case isNilConst(v):
+			return fval{kind: 'e', b: false}, true
+		case neverNilError(lf.c, v):
+			return fval{kind: 'e', b: true}, true
+		}
+		if x, ok := f.eval(v); ok && x.kind == 'e' {
+			return x, true
+		}
+		return fval{}, false
+	}
+	return f.eval(v)
 }
